@@ -202,6 +202,7 @@ class World:
         self.src = os.path.join(self.area, "src")
         self.home = os.path.join(base, "home")
         self.nsrc = 0
+        self.committed = set()          # roots of objects whose commit succeeded (also when they lie in the staging area)
         os.makedirs(self.src)
         os.makedirs(self.home, exist_ok=True)
         for rel, data in (("s-above.txt", b"above\n"), ("sib/s.txt", b"sibling\n"), ("sib/deep/t.bin", bytes(range(64))),
@@ -247,7 +248,20 @@ class World:
         """everything the oracles and the model need about the current state"""
         # every object root inside the storage root that is not in the staging area (also below `extensions`)
         objs = scan_objects(self.root, skip=self.main_skip())
-        return {"objs": objs, "staged": scan_objects(self.S), "main": snap(self.root, skip=self.main_skip()),
+        have = set(o["root"] for o in objs)
+        for r in sorted(self.committed):
+            if r not in have and under(r, self.S) and os.path.isdir(r):
+                parent = os.path.dirname(r)
+                objs += [o for o in scan_objects(parent) if o["root"] == r]
+        main = snap(self.root, skip=self.main_skip())
+        for r in sorted(self.committed):
+            if under(r, self.S) and under(self.S, self.root) and os.path.isdir(r):
+                rel = os.path.relpath(r, self.root)
+                main[rel] = ("d",)
+                for k_, e_ in snap(r).items():
+                    main[os.path.join(rel, k_)] = e_
+        staged = [o for o in scan_objects(self.S) if o["root"] not in self.committed]
+        return {"objs": objs, "staged": staged, "main": main,
                 "stg_ino": snap_ino(self.S), "src_ino": snap_ino(self.src), "sentinel": self.sentinel(),
                 "root_exists": os.path.isdir(self.root)}
 
@@ -438,6 +452,8 @@ def run_step(w, env, step, pre, inject=None, timeout=90):
             os.rmdir(os.path.join(w.root, "extensions"))
         except OSError:
             pass
+    if step["op"] in ("commit", "upgrade") and tr.rc == 0 and d.get("N") and not d["exists"]:
+        w.committed.add(d["N"])
     post = w.state()
     calls = []
     for c in tr.calls:
@@ -607,11 +623,15 @@ def derive_gin(w, rec):
             break
     if inv_src is None and d["mobj"] is not None:
         inv_src = d["mobj"]
-    if inv_src is None or not inv_src.get("alg"):
+    if (inv_src is None or not inv_src.get("alg")) and k not in ("purge", "reset_all"):
         return None
-    sidecar = "inventory.json." + inv_src["alg"]
+    sidecar = "inventory.json." + (inv_src["alg"] if inv_src is not None and inv_src.get("alg") else "sha512")
     restage = None
-    if not pre_staged and k not in ("reset_all", "purge"):
+    if k == "purge" and d["rel"] is None:
+        return None                     # no layout and the id is not found: nothing is looked at in the main repository
+    if k == "reset" and not pre_staged:
+        return None                     # reset of an object without staged version returns before anything is written
+    if not pre_staged and k in ("new", "cp_ext", "mv_ext", "cp_int", "mv_int", "rm", "upgrade"):
         if post_staged:
             decls = [o for o in post["staged"] if o["root"] == S_o][0]["decls"]
         elif d["mobj"] is not None:
@@ -693,7 +713,8 @@ def derive_gin(w, rec):
         else:
             if n is None or not any(o["root"] == n for o in post["objs"] + post["staged"]):
                 return None
-            new_files = set(kk for kk in snap(n))
+            nrel = os.path.relpath(n, w.root)
+            new_files = set(os.path.relpath(kk, nrel) for kk in post["main"] if under(kk, nrel))
             for p, e in pre_so.items():
                 if e[0] == "f" and content(p) and rel(p) not in new_files:
                     removed.append(rel(p))
@@ -785,18 +806,21 @@ def benign_id(layout, k):
 
 
 def gen_history(rng, w, n_random, stats):
-    """list of steps for one world: a benign object A that is committed (twice), then hostile material, then
-    random operations on 2-3 objects"""
+    """list of steps for one world: a benign object A with every kind of staging operation and three commits
+    (the last one an upgrade when possible), an object below plain directories, hostile material (ids, content
+    directories, destinations, object roots, purges of never-created ids that map onto other things), then
+    random operations on 3-5 objects"""
     lay = w.layout
-    steps = [{"op": "init", "spec": rng.choice(["1.0", "1.1", "1.1"])}]
-    spec10 = steps[0]["spec"] == "1.0"
+    repo_spec = rng.choice(["1.0", "1.1", "1.1", "1.1"])
+    steps = [{"op": "init", "spec": repo_spec}]
+    spec10 = repo_spec == "1.0"
     A = "a" if lay in ("0002", "none") else benign_id(lay, 1)
     if lay in ("0006", "0007"):
-        A = rng.choice(["urn:obj:001", "a:1"])
+        A = rng.choice(["urn:obj:001", "a:1", "k:a"])
     ids = [A]
 
-    def src_file():
-        return os.path.relpath(w.new_source(rng.choice(["a.txt", "b.txt", "x y.txt"]), rng.choice(CONTENTS)), w.area)
+    def src_file(name=None):
+        return os.path.relpath(w.new_source(name or rng.choice(["a.txt", "b.txt", "x y.txt"]), rng.choice(CONTENTS)), w.area)
 
     def src_dir():
         return os.path.relpath(w.new_source_dir("d", {"x.txt": rng.choice(CONTENTS), "e/y.txt": rng.choice(CONTENTS), "e/f/z": b"z"}), w.area)
@@ -807,19 +831,37 @@ def gen_history(rng, w, n_random, stats):
             st_["object_root"] = root if root is not None else "objs/" + re.sub(r"[^A-Za-z0-9]", "_", i)[:40]
         return st_
 
-    # --- object A: two versions
-    steps += [{"op": "new", "id": A, "spec": "1.0" if (spec10 or rng.random() < 0.4) else None, "pad": rng.choice([0, 0, 3])},
-              {"op": "cp_ext", "id": A, "src": [src_file(), src_file()], "dst": "/"},
+    a_spec10 = spec10 or rng.random() < 0.6
+    # --- object A: all kinds of staging operations, three versions
+    steps += [{"op": "new", "id": A, "spec": "1.0" if a_spec10 else None, "pad": rng.choice([0, 0, 3]),
+               "alg": rng.choice([None, None, "sha256"])},
+              {"op": "cp_ext", "id": A, "src": [src_file("a.txt"), src_file("b.txt")], "dst": "/"},
               {"op": "cp_ext", "id": A, "src": [src_dir()], "dst": "dir/", "recursive": True},
-              commit(A, "objs/A"),
-              {"op": "cp_ext", "id": A, "src": [src_file()], "dst": rng.choice(NAMES)},
-              {"op": "cp_int", "id": A, "src": [rng.choice(["a.txt", "b.txt", "dir/d/x.txt"])], "dst": "copy/" + rng.choice(NAMES)},
-              commit(A)]
+              commit(A, "objs/A")]
+    Pid = None
+    if lay in ("0002", "none", "0006"):
+        Pid = "k:p/q/r" if lay == "0006" else "p/q/r"
+        steps += [{"op": "new", "id": Pid}, {"op": "cp_ext", "id": Pid, "src": [src_file()], "dst": "f.txt"}, commit(Pid, "p/q/r")]
+    steps += [{"op": "cp_ext", "id": A, "src": [src_file("new.txt")], "dst": "n/new.txt"},
+              {"op": "cp_int", "id": A, "src": ["a.txt"], "dst": "copy/a2.txt"},
+              {"op": "cp_int", "id": A, "src": ["n/new.txt"], "dst": "copy/new2.txt"},
+              {"op": "mv_int", "id": A, "src": ["n/new.txt"], "dst": "moved/new3.txt"},
+              {"op": "mv_int", "id": A, "src": ["b.txt"], "dst": "moved/b2.txt"},
+              {"op": "mv_ext", "id": A, "src": [src_dir(), src_file("m.txt")], "dst": "mv/"},
+              {"op": "rm", "id": A, "paths": ["copy/new2.txt"]},
+              {"op": "rm", "id": A, "paths": ["dir/x.txt"]},
+              {"op": "reset", "id": A, "paths": ["dir/x.txt"]},
+              commit(A),
+              {"op": "cp_ext", "id": A, "src": [src_file("late.txt")], "dst": "late.txt"}]
+    steps.append({"op": "upgrade", "id": A} if (a_spec10 and not spec10) else commit(A))
+    known = {A: ["a.txt", "copy/a2.txt", "moved/new3.txt", "moved/b2.txt", "dir/x.txt", "dir/e/y.txt", "mv/m.txt", "late.txt", "mv/d/x.txt"]}
     # --- hostile ids
     pool = hostile_ids(w, lay)
     rng.shuffle(pool)
-    must = [x for x in pool if x[1] in ("../x", "a/b", "a/v1/content/deep", ".", "extensions/rocfl-staging/x", "pre:../x", "x:.", "x:a/v1/content")]
-    chosen = must[:3] + pool[:3]
+    must = [x for x in pool if x[1] in ("../x", "a/b", "a/v1/content/deep", ".", "extensions/rocfl-staging/x", "pre:../x", "x:.",
+                                        "x:a/v1/content", "p", "y:p", "/abs/path", "ab")]
+    rng.shuffle(must)
+    chosen = must[:4] + [x for x in pool if x not in must][:3]
     for cls, hid in chosen:
         stats["hostile_id_" + cls] = stats.get("hostile_id_" + cls, 0) + 1
         cd = None
@@ -833,62 +875,101 @@ def gen_history(rng, w, n_random, stats):
         if rng.random() < 0.5:
             dcls, dst = rng.choice(HOSTILE_DST)
             stats["hostile_" + dcls] = stats.get("hostile_" + dcls, 0) + 1
-            steps.append({"op": rng.choice(["cp_ext", "cp_ext", "mv_ext"]), "id": hid, "src": [src_file()], "dst": dst, "hostile": dcls})
+            steps.append({"op": rng.choice(["cp_ext", "cp_ext", "mv_ext", "cp_int", "mv_int"]), "id": hid,
+                          "src": [src_file()] if rng.random() < 0.7 else ["h.txt"], "dst": dst, "hostile": dcls})
+            if steps[-1]["op"] in ("cp_int", "mv_int"):
+                steps[-1]["src"] = ["h.txt"]
         root = None
         if lay == "none":
             rcls, root = rng.choice(HOSTILE_ROOTS)
             stats["hostile_" + rcls] = stats.get("hostile_" + rcls, 0) + 1
-        steps.append(dict(commit(hid, root), hostile=cls))
+        if rng.random() < 0.15:
+            steps.append({"op": "upgrade", "id": hid, "hostile": cls})       # upgrade of a never committed object (commits it)
+        else:
+            steps.append(dict(commit(hid, root), hostile=cls))
         r = rng.random()
-        if r < 0.45:
+        if r < 0.40:
             steps.append({"op": "purge", "id": hid, "hostile": cls})
-        elif r < 0.65:
+        elif r < 0.60:
             steps.append({"op": "reset_all", "id": hid, "hostile": cls})
         else:
             ids.append(hid)
+            known[hid] = ["h.txt"]
+    # an object root inside the staging area, exactly below the staged path of another (never created) id:
+    # refused since a1975f1; before, `reset victim` removed the committed object
+    if lay in ("0002", "none", "0006") and rng.random() < 0.7:
+        victim = "victim-%d" % rng.randrange(1000)
+        inner = "extensions/rocfl-staging/%s/deep" % st.hashed_ntuple(victim)
+        xid = ("z:" + inner) if lay == "0006" else inner
+        stats["hostile_id_in_staging_of_victim"] = stats.get("hostile_id_in_staging_of_victim", 0) + 1
+        steps += [{"op": "new", "id": xid, "hostile": "in-staging"},
+                  {"op": "cp_ext", "id": xid, "src": [src_file()], "dst": "h.txt", "hostile": "in-staging"},
+                  dict(commit(xid, inner), hostile="in-staging"),
+                  {"op": rng.choice(["reset_all", "purge"]), "id": victim, "hostile": "in-staging"},
+                  {"op": "reset_all", "id": xid, "hostile": "in-staging"}]
     # purge / reset of ids that were never created and map onto other things
-    for cls, hid in [x for x in pool if x[1] in (".", "a/v1/content", "a/v1/content/deep", "extensions", "p", "x:.", "x:a/v1/content", "b:1", "y:p", "../x")][:4]:
+    onto = [x for x in pool if x[1] in (".", "a/v1/content", "a/v1/content/deep", "extensions", "p", "x:.", "x:a/v1/content", "b:1", "y:p", "../x",
+                                        "a/v1", "extensions/rocfl-staging/x")]
+    onto += [("onto", "a/v1/content"), ("onto", "a/v1"), ("onto", "p/q"), ("onto", "")] if lay in ("0002",) else []
+    onto += [("onto", "z:a/v1/content"), ("onto", "z:p/q"), ("onto", "z:a")] if lay == "0006" else []
+    rng.shuffle(onto)
+    for cls, hid in onto[:5]:
+        if hid == "":
+            continue
         stats["hostile_purge_" + cls] = stats.get("hostile_purge_" + cls, 0) + 1
         steps.append({"op": rng.choice(["purge", "purge", "reset_all"]), "id": hid, "hostile": "purge-" + cls})
     # --- random operations
     B_ = benign_id(lay, 2)
     C_ = benign_id(lay, 3)
     ids += [B_, C_]
-    created = set([A] + [i for i in ids if i not in (B_, C_)])
+    created = set(i for i in ids if i not in (B_, C_))
     for _ in range(n_random):
         i = rng.choice(ids)
         if i not in created:
             steps.append({"op": "new", "id": i, "cdir": rng.choice([None, None, "stuff", "c d"])})
             created.add(i)
+            known[i] = []
             continue
+        kn = known.setdefault(i, [])
+        pick = (lambda: rng.choice(kn)) if kn and rng.random() < 0.75 else (lambda: rng.choice(NAMES + ["dir", "h.txt", "*"]))
         r = rng.random()
-        if r < 0.22:
+        if r < 0.20:
             if rng.random() < 0.3:
                 steps.append({"op": "cp_ext", "id": i, "src": [src_dir()], "dst": rng.choice(["dir", "tree/", "/"]), "recursive": True})
             else:
-                steps.append({"op": "cp_ext", "id": i, "src": [src_file()], "dst": rng.choice(NAMES)})
-        elif r < 0.32:
+                nm = rng.choice(NAMES)
+                steps.append({"op": "cp_ext", "id": i, "src": [src_file()], "dst": nm})
+                kn.append(nm)
+        elif r < 0.28:
             if rng.random() < 0.5:
                 steps.append({"op": "mv_ext", "id": i, "src": [src_dir(), src_file()], "dst": rng.choice(["moved/", "dir"])})
             else:
-                steps.append({"op": "mv_ext", "id": i, "src": [src_file()], "dst": rng.choice(NAMES)})
-        elif r < 0.42:
-            steps.append({"op": "cp_int", "id": i, "src": [rng.choice(NAMES + ["dir", "h.txt"])], "dst": rng.choice(NAMES + ["new/"]),
-                          "recursive": rng.random() < 0.4})
-        elif r < 0.52:
-            steps.append({"op": "mv_int", "id": i, "src": [rng.choice(NAMES + ["dir", "h.txt", "copy"])], "dst": rng.choice(NAMES + ["mv/"])})
-        elif r < 0.60:
-            steps.append({"op": "rm", "id": i, "paths": [rng.choice(NAMES + ["dir", "*", "h.txt"])], "recursive": rng.random() < 0.5})
-        elif r < 0.67:
-            steps.append({"op": "reset", "id": i, "paths": [rng.choice(NAMES + ["dir", "*"])], "recursive": rng.random() < 0.5})
-        elif r < 0.70:
+                nm = rng.choice(NAMES)
+                steps.append({"op": "mv_ext", "id": i, "src": [src_file()], "dst": nm})
+                kn.append(nm)
+        elif r < 0.40:
+            nm = rng.choice(NAMES + ["new/"])
+            steps.append({"op": "cp_int", "id": i, "src": [pick()], "dst": nm, "recursive": rng.random() < 0.3})
+            if not nm.endswith("/"):
+                kn.append(nm)
+        elif r < 0.50:
+            nm = rng.choice(NAMES + ["mv2/"])
+            steps.append({"op": "mv_int", "id": i, "src": [pick()], "dst": nm})
+            if not nm.endswith("/"):
+                kn.append(nm)
+        elif r < 0.59:
+            steps.append({"op": "rm", "id": i, "paths": [pick()], "recursive": rng.random() < 0.5})
+        elif r < 0.66:
+            steps.append({"op": "reset", "id": i, "paths": [pick()], "recursive": rng.random() < 0.5})
+        elif r < 0.69:
             steps.append({"op": "reset_all", "id": i})
-        elif r < 0.88:
+        elif r < 0.87:
             steps.append(commit(i))
-        elif r < 0.93:
+        elif r < 0.92:
             steps.append({"op": "upgrade", "id": i})
         elif r < 0.95 and spec10:
             steps.append({"op": "upgrade_repo"})
+            spec10 = False
         else:
             steps.append({"op": "purge", "id": i})
             created.discard(i)
@@ -972,9 +1053,8 @@ def run_history(ctx, env, hno, layout, ext, ext_missing, seed, n_random, stats, 
             shutil.rmtree(bak, ignore_errors=True)
         pre = rec["post"]
         n += 1
-    for p in ("/abs",):
+    for p in ("/abs",):              # only a regression of the guards creates it (the trace oracle reports the call)
         if os.path.lexists(p):
-            recs[-1]["abs_created"] = True
             shutil.rmtree(p, ignore_errors=True)
     return w, recs
 
@@ -1022,6 +1102,19 @@ def replay_input(rec):
 
 
 # --------------------------------------------------------------------------- evaluation shared by the two checks
+
+_SEG = re.compile(r'\[((?:"(?:[^"]|"")"%char(?:; )?)+)\]')
+
+
+def pretty(v):
+    """Coq's printing of fsop lists -> readable text (segments as strings, paths joined with '/')"""
+    def seg(m):
+        chars = re.findall(r'"((?:[^"]|""))"%char', m.group(1))
+        return "<" + "".join('"' if c == '""' else c for c in chars) + ">"
+    t = _SEG.sub(seg, v)
+    t = re.sub(r"\[(<[^\[\]]*>(?:; <[^\[\]]*>)*)\]", lambda m: "/" + "/".join(x[1:-1] for x in m.group(1).split("; ")), t)
+    return t
+
 
 KNOWN_SLUG = "mv-source-in-repo"
 
@@ -1084,7 +1177,7 @@ def evaluate(ctx, prop, out, stats, imports=("Base.Bytes", "Model.FsOps", "Model
     details = {}
     if detail_terms:
         for n, v in zip(detail_idx, common.coq_eval(prop.lower() + "d", list(imports), detail_terms)):
-            details.setdefault(n, []).append(v[:1500])
+            details.setdefault(n, []).append(pretty(v)[:3000])
     kinds = {}
     for n, (o, val) in enumerate(zip(owners, res)):
         kind, w, rec = o[0], o[1], o[2]
@@ -1102,8 +1195,6 @@ def evaluate(ctx, prop, out, stats, imports=("Base.Bytes", "Model.FsOps", "Model
             msg = own(w, rec)
             if not msg and prop == "C12":
                 msg = rec.get("validity_msg")
-            if not msg and rec.get("abs_created"):
-                msg = "the history created /abs outside every root"
             observed = {"rc": rec["rc"], "killed": rec["killed"], "stderr": rec["stderr"],
                         "calls": ["%s %s%s" % (op[0], " -> ".join(str(x) for x in op[1:]), "" if ok else " [failed %s]" % e) for op, ok, _, e in rec["calls"]][:80]}
             if msg and mv_source_in_repo(w, rec) and known_registered(ctx):
